@@ -75,6 +75,48 @@ def corrupt_event(ev, rnd):
     return e
 
 
+def selftest(ctx, cases, label, k, lenient):
+    """Binding demonstration (as Ctx.selftest): corrupted predictions must be rejected by the replay.  When the replay
+    of the uncorrupted cases has already found disagreements (lenient), the code does not follow the specification and
+    a corrupted history may end in "a run before the last deviates" (skipped) instead: then every corrupted case must
+    be rejected or skipped, at least one rejected -- a self-test must not turn a violation into a machinery error."""
+    import random
+    rnd = random.Random(ctx.seed)
+    lines = []
+    with open(cases) as f:
+        for i, line in enumerate(f):
+            if len(lines) < 400:
+                lines.append(line)
+            elif rnd.random() < 0.01:
+                lines[rnd.randrange(len(lines))] = line
+            if i > 200000:
+                break
+    rnd.shuffle(lines)
+    bad = []
+    for line in lines:
+        c = corrupt(json.loads(line), rnd)
+        if c is not None:
+            bad.append(c)
+        if len(bad) >= k:
+            break
+    if not bad:
+        raise MachineryError(f'{label}: self-test could not corrupt any case')
+    bf = ctx.path(f'selftest_{label}.ndjson')
+    with open(bf, 'w') as f:
+        for c in bad:
+            f.write(json.dumps(c, separators=(',', ':')) + '\n')
+    out = ctx.path(f'selftest_{label}.json')
+    ctx.harness(['C14', 'replay', '-in', bf, '-out', out, '-maxfail', '1000'])
+    s = json.load(open(out))
+    nfail, nskip = sum(s['sig_counts'].values()), s['skipped']
+    ctx.cov.setdefault('selftest', []).append({'label': label, 'corrupted': len(bad), 'rejected': nfail, 'skipped': nskip})
+    if s['sig_counts'].get('HARNESS-PANIC'):
+        raise MachineryError(f'{label}: harness panicked in the self-test')
+    if (nfail < len(bad) and not lenient) or nfail + nskip < len(bad) or nfail == 0:
+        raise MachineryError(f'{label}: binding self-test failed: {len(bad)} corrupted predictions, only {nfail} rejected ({nskip} skipped)')
+    ctx.log(f'{label}: binding self-test ok ({nfail}/{len(bad)} corrupted predictions rejected' + (f', {nskip} skipped)' if nskip else ')'))
+
+
 def trace_case(rej):
     """Gen_Reuse-format case for a recorded history that Trace_Reuse rejected: the history up to the rejected run,
     with the specification's prediction for that run."""
@@ -218,8 +260,10 @@ def run(ctx):
         # 6 runs yields ~2000 histories (each prefix of the walk extended by every possible next run)
         ctx.tlc('Gen_Reuse', sim, capture='cases.ndjson', simulate=20, depth=7, workers=1, timeout=1200)
     ctx.cov['exhaustive'] = True
-    ctx.replay('cases.ndjson', label='gen-reuse', min_cases=1000, corrupt=corrupt)
+    ctx.replay('cases.ndjson', label='gen-reuse', min_cases=1000, selftest=False)
     gate_fresh_model(ctx)
+    lenient = bool(ctx.failures)
+    selftest(ctx, ctx.path('cases.ndjson'), 'gen-reuse', 12, lenient)
     fams = {}
     for line in open(ctx.path('cases.ndjson')):
         k = json.loads(line)['fam']
@@ -234,7 +278,7 @@ def run(ctx):
             for line in open(ctx.path('cases.ndjson')):
                 if json.loads(line)['fam'] == fam:
                     f.write(line)
-        ctx.selftest(ff, 'C14', corrupt, f'gen-reuse-{fam}', k=8)
+        selftest(ctx, ff, f'gen-reuse-{fam}', 8, lenient)
     # 3. code -> spec
     ntr = 100 if q else 1000
     ctx.harness(['C14', 'record', '-seed', str(ctx.seed), '-n', str(ntr), '-out', ctx.path('trace.ndjson')])
